@@ -72,8 +72,18 @@ pub fn gen_base(w: &World, r: &mut Rng, mix: Mix, proto: Option<Proto>) -> Base 
         let ev = Evolve::swarm(r);
         let mut cx = GenCtx::new(r, knobs);
         let tv = cx.of_struct(&w.schema, &ev, &def, 1);
-        let e = encode_value(proto, &tv, long_form);
         let mut b = 60;
+        if r.chance(1, 6) {
+            // the service-call flow: message envelope, then the generated body, read with one protocol instance
+            let name_len = *r.pick(&[0usize, 4, 15, 16, 40]);
+            let name: Vec<u8> = (0..name_len).map(|_| b'a' + r.below(26) as u8).collect();
+            let mut e = Enc::new(proto);
+            e.long_form = long_form;
+            e.message_begin(&name, r.range(1, 4) as u8, r.next() as i32);
+            e.value(&tv);
+            return Base { proto, level: Level::Gen(format!("call::{}", g.name)), bytes: e.out, spans: e.spans, note: format!("call[{}] {}", name_len, tv.brief(&mut b)), tv: Some(tv), conforming: false };
+        }
+        let e = encode_value(proto, &tv, long_form);
         Base { proto, level: Level::Gen(g.name.to_string()), bytes: e.out, spans: e.spans, note: tv.brief(&mut b), tv: Some(tv), conforming: ev.retype_pct == 0 }
     } else if x < mix.gen + mix.prim {
         let mut cx = GenCtx::new(r, knobs);
